@@ -257,7 +257,9 @@ func VerifH_C08_ClientMultiGet() {
 	mg := &CalendarMultiGet{CompRequest: symCompRequest(0)}
 	n := vrt.Choose("nhrefs", vrt.Param("maxhrefs", 3)+1)
 	for i := 0; i < n; i++ {
-		mg.Paths = append(mg.Paths, "/dav/cal/"+vrt.Str("name"))
+		// arbitrary bytes (every value) so that any escaping/parsing on the
+		// way is executed from the real net/url code
+		mg.Paths = append(mg.Paths, "/dav/cal/"+vrt.StrN("name", 1+vrt.Choose("name-len", vrt.Param("namelen", 1))))
 	}
 	hc := &internal.VerifHTTPClient{}
 	c := newVerifClient(hc)
